@@ -48,6 +48,23 @@ def gen_case(rng):
              'val': unk if rng.random() < 0.5 else {'l': [1, unk]}, '_form': 'macro_key', 'block': False},
             {'op': 'finalize', '_enter': G.gen_enter(rng, rng.choice(scopes)) if rng.random() < 0.3 else []},
             {'op': 'locked'}]
+  if rng.random() < 0.25:
+    # a class whose method was registered on its own before the lock: registering the class on the locked
+    # configuration is refused and renames nothing (the method keeps its free-standing name, bindings and all)
+    import copy
+    mop, cop = G.gen_class_with_method(rng, 40, module=rng.choice(['m', 'k']))
+    if not cop.get('_inherited'):
+      cop['_split'] = True
+      mop['_split_class'] = copy.deepcopy(cop)
+      early = dict(mop, _selector=mop['module'] + '.' + mop['name'])
+      ops += [{'op': 'clear', 'constants': False}, mop]
+      for _ in range(rng.randint(1, 2)):
+        ops.append(G.gen_bind_attempt(rng, [early], scopes))
+      ops += [{'op': 'finalize'}, {'op': 'locked'}, cop, {'op': 'registry'}, {'op': 'config'}]
+      ops.append(G.gen_bind_attempt(rng, [early], scopes))
+      if rng.random() < 0.5:
+        body = [cop, {'op': 'registry'}, G.gen_bind_attempt(rng, [mop], scopes)]
+        ops.append({'op': 'unlock', 'body': body, 'raises': rng.random() < 0.3})   # inside an unlock block it goes through
   ops += [{'op': 'locked'}, {'op': 'config'}, {'op': 'registry'}]
   return {'dom': 'gin', 'ops': ops}
 
@@ -90,8 +107,12 @@ def tally(stats, case, impl):
 
 def shrink(case):
   ops = case['ops']
+  keep = set()
+  for i, o in enumerate(ops):
+    if o.get('_split_class') is not None:
+      keep |= {i - 1, i}     # the class statement has to run on an unlocked configuration: its `clear` stays
   for k in range(len(ops) - 1, -1, -1):
-    if ops[k]['op'] == 'register' and not ops[k]['name'].startswith('late'):
+    if k in keep or (ops[k]['op'] == 'register' and not ops[k]['name'].startswith('late')):
       continue
     yield {'dom': 'gin', 'ops': ops[:k] + ops[k + 1:]}
   for k, op in enumerate(ops):
